@@ -49,6 +49,10 @@ Send(c, m, path, peerCrc, shrinks) ==
 \* ---- receiving ----------------------------------------------------------------
 \* result: [acc: BOOLEAN, why: STRING, msg: delivered message class or "garbled"]
 Drop(why) == [acc |-> FALSE, why |-> why, msg |-> "none"]
+\* a ciphertext handled as if it were plaintext is a garbage message: its first byte (the encryption
+\* version, 0 or 1) reads as a ping / indirect-ping type and the rest may or may not decode - the
+\* model leaves open whether the receiver reacts to it (it never carries membership data)
+Garbage(why) == [acc |-> FALSE, why |-> why, msg |-> "garbled"]
 
 Recv(c, f) ==
   LET lab == IF c.skip THEN c.label ELSE f.lab IN
@@ -56,14 +60,14 @@ Recv(c, f) ==
   ELSE IF c.label # lab THEN Drop("label")
   ELSE IF f.enc # "none"
        THEN \* ciphertext on the wire
-            IF ~EncOn(c) THEN (IF f.path = "stream" THEN Drop("encrypted-unconfigured") ELSE Drop("undecodable"))
+            IF ~EncOn(c) THEN (IF f.path = "stream" THEN Drop("encrypted-unconfigured") ELSE Garbage("undecodable"))
             ELSE IF f.enc \in KeySet(c) /\ f.intact /\ f.aad = lab
                  THEN \* opens.  The version byte decides whether padding is removed.
                       IF f.crc = "bad" THEN Drop("crc")
                       ELSE IF (f.vsn = 0) = f.pad THEN [acc |-> TRUE, why |-> "ok", msg |-> f.msg]
                       ELSE [acc |-> TRUE, why |-> "version-flipped", msg |-> "garbled"]
                  ELSE IF c.vin \/ f.path = "stream" THEN Drop("auth")
-                 ELSE Drop("undecodable")      \* treated as plaintext: a ciphertext is not a message
+                 ELSE Garbage("undecodable")   \* treated as plaintext: a ciphertext is not a message
   ELSE \* plaintext on the wire
        IF EncOn(c) /\ c.vin THEN Drop("plaintext-refused")
        ELSE IF f.crc = "bad" THEN Drop("crc")
